@@ -164,7 +164,6 @@ func (c *converter) ProgramEnd() error {
 	if c.sliceCopyHelperRequired {
 		c.sliceLenGetHelperRequired = true
 		c.sliceLenSetHelperRequired = true
-		c.sliceAssignmentHelperRequired = true
 
 		// %1: Destination slice
 		// %2: Source slice
@@ -588,7 +587,7 @@ func (c *converter) SliceInstantiation(values []string, valueUsed bool) (string,
 	helper := c.nextHelperVar()
 	c.VarAssignment(helper, "_dv!_dvc!", false)
 
-	c.sliceAssignmentHelperRequired = true
+	c.sliceLenSetHelperRequired = true
 	c.callFunc(sliceLenSetHelper, []string{}, c.varEvaluationString(helper, false), strconv.Itoa(len(values)))
 
 	// Init slice values.
